@@ -42,6 +42,11 @@ fn divisors_al(t: u16, r: &mut Rng) -> u8 {
 
 /// Draw a configuration shape. `max_k` bounds the symbols per block (cost control per profile).
 pub fn gen_setup(r: &mut Rng, profile: Profile, max_k: u32) -> Setup {
+    gen_setup_band(r, profile, max_k, None)
+}
+
+/// `band = Some(lo)`: one block of lo..=max_k symbols (forced block-size band)
+pub fn gen_setup_band(r: &mut Rng, profile: Profile, max_k: u32, band: Option<u32>) -> Setup {
     // ---- symbols per block
     let k_target: u32 = match r.below(100) {
         0..=44 => r.range(1, 12) as u32,
@@ -54,7 +59,9 @@ pub fn gen_setup(r: &mut Rng, profile: Profile, max_k: u32) -> Setup {
     // solver grows past one and two machine words on the dense back-end as well
     // C07 streams with a forced block-size band (one block): 121..180 for the checked builds,
     // 700..1300 and 3000..9000 for the release builds (selected by max_k)
-    let band_lo: Option<u32> = if profile != Profile::C07 {
+    let band_lo: Option<u32> = if band.is_some() {
+        band
+    } else if profile != Profile::C07 {
         None
     } else if max_k >= 5000 {
         Some(3000)
@@ -458,6 +465,13 @@ fn gen_link(r: &mut Rng, profile: Profile, horizon: u64) -> Link {
         }
     }
     Link { drop_iid, ge, bad: false, partitions, dup, base: 1 + r.below(3), jitter, stalls, pending: vec![], max_send_index: 0, late_join_pending: late }
+}
+
+/// one block of lo..=hi symbols, otherwise as `simulate`
+pub fn simulate_band(seed: u64, profile: Profile, oracles: Oracles, transcript: bool, lo: u32, hi: u32) -> SimOut {
+    let mut r = Rng::new(seed);
+    let setup = gen_setup_band(&mut r, profile, hi, Some(lo));
+    simulate_setup(r, setup, profile, oracles, transcript)
 }
 
 pub fn simulate(seed: u64, profile: Profile, oracles: Oracles, transcript: bool, max_k: u32) -> SimOut {
